@@ -61,6 +61,20 @@ class Rec(Collector):
             self.model.complete()
 
 
+class InnerRec(Collector):
+    def collect(self):
+        self.records.append(('inner', self.model.k, self.model.systems.timestep))
+
+
+class InnerB(Core.Model):
+    """A small sub-model that an outer model runs as a (serial) batch of its own while it is being built."""
+
+    def __init__(self, k):
+        super().__init__(seed=1)
+        self.k = k
+        self.systems.add_system(InnerRec('ci', self))
+
+
 class Fin(Core.System):
     """Runs first in every timestep; from timestep `life` on it declares the model finished through the model's own
     criterion (BModel.is_running), not through complete()."""
@@ -125,6 +139,12 @@ class BModel(Core.Model):
         super().__init__(seed=1)
         ambient_logger(self)
         self.style, self.life, self.done = style, life, False
+        if style == 'nested_batch':
+            # the model calibrates itself with a nested, serial batch of sub-models before its own run starts
+            self.inner = Batching.batch_run(InnerB, {'k': [1, 2]}, collectors='ci', processes=1, max_timesteps=30)
+            if [len(r) for r in self.inner] != [30, 30]:
+                raise Violation('the nested batch of sub-models did not run its own 30 timesteps each',
+                                expected=[30, 30], observed=[len(r) for r in self.inner])
         if style == 'own_done':
             self.systems.add_system(Fin('fin', self, priority=5))
         elif style == 'jump':
@@ -359,7 +379,7 @@ def extra_cases():
                     yield {'leg': 'sources', 'grid': gname, 'reps': reps, 'life': 2, 'limit': None, 'collectors': 'c0',
                            'procs': procs, 'outcome': oc, 'source': src}
     # models that finish by their own criterion (is_running overridden) / whose clock jumps ahead (event-driven)
-    for style in ('own_done', 'jump', 'own_execute'):
+    for style in ('own_done', 'jump', 'own_execute', 'nested_batch'):
         for life, limit in ((3, None), (3, 2), (3, 3), (3, 7), (6, 2), (6, 3), (6, 4), (6, 5), (2, None), (1, 3), (9, 4)):
             for coll in ('c0', 'list'):
                 for procs, oc in ((1, None), (2, [[[0], [1]], [1, 0]])):
@@ -380,14 +400,19 @@ def extra_cases():
 def reused_list_case(case):
     """One ParameterList object used for several batches with its declaration edited in between."""
     reset_library()
-    pl = Batching.ParameterList({'a': [1, 2], 'b': [5, 6]})
+    a_vals = [1, 2]          # the caller keeps this list and grows it between two batches
+    pl = Batching.ParameterList({'a': a_vals, 'b': [5, 6]})
     plan = [('run', [(1, 5), (1, 6), (2, 5), (2, 6)]), ('remove', 'b'), ('run', [(1, 0), (2, 0)]),
-            ('add', ('life', 3)), ('run', [(1, 0), (2, 0)]), ('remove', 'a'), ('add', ('a', [3])), ('run', [(3, 0)])]
+            ('grow', 4), ('run', [(1, 0), (2, 0), (4, 0)]),
+            ('add', ('life', 3)), ('run', [(1, 0), (2, 0), (4, 0)]), ('remove', 'a'), ('add', ('a', [3])), ('run', [(3, 0)]),
+            ('add', ('b', 7)), ('run', [(3, 7)]), ('remove', 'b'), ('add', ('b', [5, 6])), ('run', [(3, 5), (3, 6)])]
     life = 2
     n = 0
     for what, arg in plan:
         if what == 'remove':
             pl.remove_parameter(arg)
+        elif what == 'grow':
+            a_vals.append(arg)      # the list object the parameter was declared with: the declaration is what it holds now
         elif what == 'add':
             pl.add_parameter(*arg)
             if arg[0] == 'life':
@@ -524,6 +549,42 @@ def _real_pool_error_child(conn, kind, where):
         conn.send(('raised', type(e).__name__))
 
 
+START_CHILD = r'''
+import json, multiprocessing, sys
+sys.path.insert(0, sys.argv[1]); sys.path.insert(0, sys.argv[2])
+import mc.props.c15 as c15
+import ECAgent.Batching as Batching
+if __name__ == '__main__':
+    multiprocessing.set_start_method(sys.argv[3], force=True)
+    params = c15.grid_params('3x1', 4)
+    got = Batching.batch_run(c15.BModel, params, collectors='c0', processes=2, max_timesteps=int(sys.argv[4]), repetitions=2)
+    print('RESULT ' + json.dumps(sorted(map(repr, got))))
+'''
+
+
+def start_method_case(case):
+    """The same batch with worker processes that are NOT forked from the caller (start methods spawn / forkserver:
+    the workers import everything afresh): the step limit, the repetitions and the collector name still apply."""
+    import os
+    import subprocess
+    import sys
+    import json
+    tree = os.path.dirname(os.path.dirname(os.path.abspath(Core.__file__)))
+    verif = os.path.dirname(os.path.dirname(os.path.dirname(os.path.abspath(__file__))))
+    r = subprocess.run([sys.executable, '-c', START_CHILD, tree, verif, case['method'], str(case['limit'])],
+                       capture_output=True, text=True, env=dict(os.environ, PYTHONHASHSEED='0'), timeout=300)
+    line = next((ln for ln in r.stdout.splitlines() if ln.startswith('RESULT ')), None)
+    if line is None:
+        raise Violation(f'batch_run with 2 {case["method"]}-started worker processes failed',
+                        observed=(r.stderr.strip().splitlines() or [''])[-1])
+    got = json.loads(line[7:])
+    exp = sorted(repr(ref_records('c0', a, b, 4, case['limit'])) for a, b in task_list('3x1', 2, 4))
+    if got != exp:
+        raise Violation(f'batch_run with 2 {case["method"]}-started worker processes (max_timesteps={case["limit"]}, 2 '
+                        f'repetitions): results differ from one result per execution', expected=exp[:3], observed=got[:3])
+    return len(got)
+
+
 def real_pool_errors(ctx):
     """Binds the modelled hang (sched.PoolHang) to the real pool: a failing execution under the real
     multiprocessing.Pool, run in a child process so that a batch that never returns can be told from one that
@@ -595,6 +656,15 @@ def run(ctx):
     if ctx.small:
         return
     if not ctx.violations:
+        for case in ({'leg': 'start_method', 'method': 'spawn', 'limit': 3}, {'leg': 'start_method', 'method': 'forkserver', 'limit': 2}):
+            ctx.traces += 1
+            try:
+                ctx.transitions += hbfs._guard(start_method_case, case)
+                ctx.outcome(('start_method', case['method']))
+            except Violation as v:
+                ctx.report(case, v)
+        ctx.leg('start_methods', note='real pool with spawn- and forkserver-started workers')
+    if not ctx.violations:
         real_pool_errors(ctx)
     if not ctx.violations:
         conformance(ctx)
@@ -612,6 +682,9 @@ def replay(case):
         return
     if case['leg'] == 'reused_list':
         hbfs._guard(reused_list_case, case)
+        return
+    if case['leg'] == 'start_method':
+        hbfs._guard(start_method_case, case)
         return
     if case['leg'] == 'real_pool_error':
         from mc.engine.report import Ctx      # noqa
